@@ -100,12 +100,19 @@ fn step(w: &mut World, spec: &SeqSpec, shm: &Shm, op: &Op, check: bool) -> VResu
         if let Some(extra) = spec.extra {
             extra(w, spec, shm)?;
         }
-        shm.add(C_NODES, 1);
-        shm.insert_state(w.state_hash());
-        shm.max(C_MAX_L0, w.shape.max_l0);
-        shm.max(C_MAX_LEVEL_FILES, w.shape.max_level_files);
-        shm.max(C_DEEPEST_LEVEL, w.shape.deepest_level);
-        shm.max(C_MAX_TOTAL_FILES, w.shape.max_total_files);
+        let n = shm.add(C_NODES, 1);
+        if n % 7919 == 0 || n < 2 {
+            let path = unsafe { CHILD_PATH.clone() };
+            let v = json!({"family": spec.name, "ops": spec.path_str(&path), "model": w.model.iter().map(|(k, v)| format!("{}={}", esc(k), show_val(v))).collect::<Vec<_>>()});
+            shm.push_record(b'S', v.to_string().as_bytes());
+        }
+        let (h, shape) = w.state_hash_and_shape();
+        shm.insert_state(h);
+        shm.max(C_MAX_L0, shape.max_l0);
+        shm.max(C_MAX_LEVEL_FILES, shape.max_level_files);
+        shm.max(C_DEEPEST_LEVEL, shape.deepest_level);
+        shm.max(C_MAX_TOTAL_FILES, shape.max_total_files);
+        shm.add(C_IMM_SEEN, shape.imm_seen);
         if !w.snaps.is_empty() || w.iter.is_some() {
             shm.add(C_SNAP_NODES, 1);
         }
@@ -374,6 +381,7 @@ pub struct SeqResult {
     pub machinery_errors: u64,
     pub disabled_ops: u64,
     pub shape: Value,
+    pub samples: Vec<Value>,
     pub capped: bool,
     pub wall_s: f64,
 }
@@ -382,7 +390,8 @@ pub struct SeqResult {
 pub fn explore(spec: SeqSpec, workers: usize, deadline: Option<std::time::Instant>) -> SeqResult {
     let t0 = std::time::Instant::now();
     let spec = Arc::new(spec);
-    let shm = Arc::new(Shm::new(1 << 22, 8 << 20));
+    let slots: usize = std::env::var("RDBCHECK_SET_SLOTS").ok().and_then(|s| s.parse().ok()).unwrap_or(1 << 22);
+    let shm = Arc::new(Shm::new(slots, 8 << 20));
     let p = spec.depth.min(if spec.alphabet.len() >= 12 { 2 } else { 3 }).min(spec.depth);
     let p = if spec.depth <= 1 { spec.depth } else { p };
     let total = num_tasks(&spec, p);
@@ -418,6 +427,7 @@ pub fn explore(spec: SeqSpec, workers: usize, deadline: Option<std::time::Instan
     }
     let capped = (shm.get(C_TASKS_DONE) as usize) < total;
     let mut found = vec![];
+    let mut samples: Vec<Value> = vec![];
     let mut machinery = shm.get(C_MACHINERY) + worker_crashes;
     for (tag, data) in shm.records() {
         match tag {
@@ -437,6 +447,11 @@ pub fn explore(spec: SeqSpec, workers: usize, deadline: Option<std::time::Instan
                 }
             }
             b'M' => machinery += 1,
+            b'S' => {
+                if let Ok(v) = serde_json::from_slice::<Value>(&data) {
+                    samples.push(v);
+                }
+            }
             _ => {}
         }
     }
@@ -457,9 +472,11 @@ pub fn explore(spec: SeqSpec, workers: usize, deadline: Option<std::time::Instan
             "deepest_nonempty_level": shm.get(C_DEEPEST_LEVEL),
             "max_total_files": shm.get(C_MAX_TOTAL_FILES),
             "nodes_with_live_snapshot_or_iterator": shm.get(C_SNAP_NODES),
+            "nodes_with_immutable_memtable_pending": shm.get(C_IMM_SEEN),
             "user": (C_USER..C_USER + 16).map(|i| shm.get(i)).collect::<Vec<_>>(),
         }),
         found,
+        samples,
         capped,
         wall_s: t0.elapsed().as_secs_f64(),
     }
